@@ -62,6 +62,8 @@ def plan(tier, seed):
                 shards.append(("pipe", tier, gi, ng, omfloat))
         if gi % 4 == 0:
             shards.append(("pipe_nostart", tier, gi, 3, True))
+        if gi % 8 in (2, 5):
+            shards.append(("pipe_mixedstart", tier, gi, 3, gi % 8 == 2))
         if gi % 8 in (0, 5):
             shards.append(("pipe_wrap360", tier, gi, 2, True))
         if gi % 4 == 3:
@@ -81,6 +83,7 @@ def plan(tier, seed):
             for nt in (4, 16) if tier == "quick" else (2, 3, 4, 7, 16):
                 shards.append(("pipe_frames%d" % nt, tier, gi, 3, gi % 8 == 2))
     shards.append(("callers",))
+    shards.append(("grainfile",))
     k = seed % len(shards)
     return shards[k:] + shards[:k]
 
@@ -146,7 +149,8 @@ def write_inputs(wd, pars, peaks, start, gm, P, with_translation=True, legacy=Fa
             order = np.argsort(peaks[:, 2], kind="stable")          # frame by frame, as a peak search writes them
         for k in order:
             fh.write("%.4f  %.4f  %.4f  %.0f  %.4f  %.4f\n" % (peaks[k, 0], peaks[k, 1], peaks[k, 2], 10, 100.0, 1000.0))
-    gl = [gm.grain(u, translation=(t if with_translation else None)) for u, t in start]
+    # "mixed": refined grains followed by newly indexed ones - only the first grain of the file has a position
+    gl = [gm.grain(u, translation=(t if (with_translation is True or (with_translation == "mixed" and k == 0)) else None)) for k, (u, t) in enumerate(start)]
     gm.write_grain_file(os.path.join(wd, "start.ubi"), gl)
     return order
 
@@ -192,11 +196,12 @@ def run_case(sh, mods, pars, ng, omfloat, case, passes=3, with_translation=True,
             peaks[peaks[:, 3] >= ng - unlisted, 3] = -1
             truth = truth[:ng - unlisted]
             ng = ng - unlisted
-        if not with_translation:
+        if with_translation is not True:
             # an indexer-style ubi file: no positions known; grains closer to the axis so that the assignment can start
-            truth = [(u, t * 0.3) for u, t in truth]
+            known = 1 if with_translation == "mixed" else 0
+            truth = [(u, t * (1.0 if k < known else 0.3)) for k, (u, t) in enumerate(truth)]
             peaks = simulate(tr, pars, truth)
-            start = [(u, np.zeros(3)) for u, t in perturbed(truth)]
+            start = [(u, t if k < known else np.zeros(3)) for k, (u, t) in enumerate(perturbed(truth))]
         if frame_threads:
             # every spot listed twice, the table in omega order: consecutive rows with exactly the same omega, as 2-D peak tables have;
             # the compiled loops run with `frame_threads` threads
@@ -324,23 +329,80 @@ def run_shard(desc):
         # score_and_refine (behind refinegrains.refine) is declared threadsafe: two refinements in two python threads are inside it at once
         from vt.props import c06
         return c06._run_callers(("callers",))
+    if desc[0] == "grainfile":
+        return _run_grainfile(desc)
     kind, tier, gi, ng, omfloat = desc
     sh = Shard()
     pars = geometries(tier)[gi]
-    case = {"tier": tier, "geometry": gi, "ngrains": ng, "omega_float": omfloat, "seed": seed_of(), "start_has_translations": kind != "pipe_nostart",
+    case = {"tier": tier, "geometry": gi, "ngrains": ng, "omega_float": omfloat, "seed": seed_of(), "start_has_translations": "mixed" if kind == "pipe_mixedstart" else kind != "pipe_nostart",
             "cubic_constraint": kind == "pipe_cubic", "refinepositions_calls_on_one_object": int(kind[11:]) if kind.startswith("pipe_repeat") else 0,
             "grains_not_in_the_grain_file": 1 if kind == "pipe_missing" else 0, "cell_scale": 30.0 if kind == "pipe_bigcell" else 1.0,
             "omega_written_0_to_360": kind == "pipe_wrap360", "legacy_column_names": kind == "pipe_legacy",
             "frame_pairs_threads": int(kind[11:]) if kind.startswith("pipe_frames") else 0, "second_grain_is_a_subgrain_of_the_first": kind == "pipe_subgrain",
             "pars": {k: v for k, v in pars.items() if not k.startswith("cell")}}
-    info = run_case(sh, _mods(), pars, ng, omfloat, case, with_translation=(kind != "pipe_nostart"), cubic=(kind == "pipe_cubic"),
+    info = run_case(sh, _mods(), pars, ng, omfloat, case, with_translation=case["start_has_translations"], cubic=(kind == "pipe_cubic"),
                     repeat=case["refinepositions_calls_on_one_object"], unlisted=case["grains_not_in_the_grain_file"], cellscale=case["cell_scale"], wrap360=case["omega_written_0_to_360"],
                     legacy=case["legacy_column_names"], frame_threads=case["frame_pairs_threads"], subgrain=case["second_grain_is_a_subgrain_of_the_first"])
     sh.sample(dict(case, **{k: v for k, v in (info or {}).items()}), limit=1)
     return sh
 
 
+def _run_grainfile(desc):
+    """The starting grain file of the pipeline, every pattern of known / unknown positions for 1..3 grains (refined grains and newly
+    indexed ones in one file): what is read back is what was written, a grain written without a position has none, and refinegrains starts
+    such a grain at t_x, t_y, t_z of the parameter file"""
+    tr, gm, P, cf_mod, makemap_mod = _mods()
+    import ImageD11.refinegrains as RG
+    sh = Shard()
+    truth = true_grains(3, seed_of())
+    ta, tb = np.array([120.5, -340.25, 77.0]), np.array([-15.0, 8.5, -260.75])
+    pars = geometries("quick")[0]
+    wd = os.path.join(WORK, "c09_gf_%d" % os.getpid())
+    os.makedirs(wd, exist_ok=True)
+    try:
+        peaks = simulate(tr, pars, truth[:1])
+        write_inputs(wd, pars, peaks, truth[:1], gm, P)
+        for n in (1, 2, 3):
+            for pat in itertools.product((None, ta, tb), repeat=n):
+                case = {"kind": "grainfile", "positions": [None if t is None else list(t) for t in pat]}
+                fn = os.path.join(wd, "mixed.ubi")
+                gm.write_grain_file(fn, [gm.grain(truth[k][0], translation=pat[k]) for k in range(n)])
+                back = gm.read_grain_file(fn)
+                sh.evaluations += 1
+                sh.nontrivial += any(t is None for t in pat) and any(t is not None for t in pat)
+                sh.outcomes.add(tuple(t is None for t in pat))
+                bad = len(back) != n
+                for k in range(0 if bad else n):
+                    bt = back[k].translation
+                    if (pat[k] is None) != (bt is None) or (bt is not None and np.abs(np.asarray(bt) - pat[k]).max() > 1e-3):
+                        bad = True
+                    if np.abs(back[k].ubi - truth[k][0]).max() > 1e-6 * np.abs(truth[k][0]).max():
+                        bad = True
+                if bad:
+                    sh.violation("grain-file:positions-read-back-differ-from-those-written", case,
+                                 {"read": [None if g.translation is None else list(g.translation) for g in back]})
+                    continue
+                with contextlib.redirect_stdout(io.StringIO()):
+                    o = RG.refinegrains(tolerance=0.05, OmFloat=False)
+                    o.loadparameters(os.path.join(wd, "g.par"))
+                    o.parameterobj.set_parameters({"t_x": 3.0, "t_y": -4.0, "t_z": 5.0})
+                    o.loadfiltered(os.path.join(wd, "p.flt"))
+                    o.readubis(fn)
+                    o.generate_grains()
+                for k, gname in enumerate(o.grainnames):
+                    want = np.array([3.0, -4.0, 5.0]) if pat[k] is None else pat[k]
+                    got = np.asarray(o.grains[(gname, o.scannames[0])].translation, float)
+                    if np.abs(got - want).max() > 1e-3:
+                        sh.violation("refinegrains:grain-does-not-start-where-the-grain-file-puts-it", dict(case, grain=k), {"got": got, "expected": want})
+                        break
+    finally:
+        shutil.rmtree(wd, ignore_errors=True)
+    return sh
+
+
 def replay(case):
+    if case.get("kind") == "grainfile":
+        return _run_grainfile(("grainfile",))
     if case.get("kind") == "callers":
         from vt.props import c06
         return c06.replay(case)
